@@ -338,7 +338,7 @@ func (p *Program) RunPath(fn *ssa.Function, prefix []Dec, solver *smt.Solver, op
 		globals: map[*ssa.Global]*Value{}, mutexW: map[*Value][]*G{}, wgCount: map[*Value]int64{}, wgW: map[*Value][]*G{},
 		mapOrderSym: map[string]bool{}, Env: NewWorld(), Funcs: map[*ssa.Function]bool{},
 		userData: map[string]Value{}, extTypeTab: map[string]types.Type{}, Fixed: opts.Fixed, onPending: onPending,
-		knownW: map[string]*Violation{}, CrossKind: opts.CrossSolver, CrossStats: crossStats,
+		knownW: map[string]*Violation{}, decided: map[*sym.Term]bool{}, CrossKind: opts.CrossSolver, CrossStats: crossStats,
 	}
 	res = &PathResult{Prefix: prefix}
 	for k, v := range opts.Params {
